@@ -43,6 +43,8 @@ func main() {
 	controls := flag.String("controls", "/verif/seeded", "directory of kept seeded changes used as positive controls (thorough tier, -selftest)")
 	doSelftest := flag.Bool("selftest", false, "apply every kept seeded change to a scratch copy and require the checker to fire; exit 2 if one stays silent")
 	describe := flag.Bool("describe", false, "print the registered properties (id, what is decided, assumptions) as JSON and exit")
+	flag.BoolVar(&noInline, "no-inline", false, "do not inline functions outside the baseline list before the rules run (debugging aid)")
+	flag.StringVar(&dumpInlinedDir, "dump-inlined", "", "write the helper-inlined sources of package absnfs to this directory (debugging aid)")
 	flag.Parse()
 	if *describe {
 		out := map[string]interface{}{}
